@@ -77,6 +77,7 @@ struct Sim {
 	int in_lib = 0;           // >0 while the harness is inside a library call
 	// clock
 	int64_t clock_now = 1700000000;
+	int64_t clock_start = 1700000000;   // the value the current operation's environment started from
 	int64_t clock_step = 0;   // added after every time() call (jump inside one operation)
 	uint64_t time_calls = 0, clock_calls = 0, localtime_calls = 0;
 	// libc PRNG stub
